@@ -186,6 +186,9 @@ pub struct TypeOps {
     /// `n` values in a row from ONE `Deserializer::from_str` / `Deserializer::from_reader`
     pub de_str_many: fn(&str, usize) -> Vec<DeResult>,
     pub de_reader_many: fn(ChunkedRead, usize) -> Vec<DeResult>,
+    /// `Deserializer::from_str_with_resolver` / `Deserializer::with_resolver` (bool = reader) with a resolver that
+    /// knows the predefined entities and the ones a DOCTYPE declares
+    pub de_resolver: fn(&str, bool) -> DeResult,
     /// which documented mapping rows this type exercises
     pub rows: &'static [&'static str],
 }
@@ -206,6 +209,59 @@ fn de_str_impl<T: DeserializeOwned + Val>(s: &str, limit: Option<usize>) -> DeRe
 /// `n & 0xFF` values in a row from one deserializer, stopping at the first error (what happens to a
 /// deserializer that is used again after it returned an error is not stated anywhere) unless bit
 /// 0x100 of `n` is set
+/// An entity resolver as the crate's documentation sketches it: `<!ENTITY name "value">` declarations of every
+/// DOCTYPE are captured, predefined entities are known from the start.
+#[derive(Default)]
+pub struct DtdResolver(pub BTreeMap<String, String>);
+#[derive(Debug)]
+pub struct DtdError;
+impl std::fmt::Display for DtdError {
+    fn fmt(&self, f: &mut std::fmt::Formatter) -> std::fmt::Result {
+        f.write_str("bad DTD")
+    }
+}
+impl std::error::Error for DtdError {}
+impl quick_xml::de::EntityResolver for DtdResolver {
+    type Error = DtdError;
+    fn capture(&mut self, doctype: quick_xml::events::BytesText) -> Result<(), DtdError> {
+        let t = String::from_utf8_lossy(&doctype).into_owned();
+        let mut rest = t.as_str();
+        while let Some(i) = rest.find("<!ENTITY") {
+            rest = &rest[i + 8..];
+            let r2 = rest.trim_start();
+            let name_end = r2.find(|c: char| c.is_whitespace()).ok_or(DtdError)?;
+            let name = &r2[..name_end];
+            let r3 = r2[name_end..].trim_start();
+            let q = r3.chars().next().ok_or(DtdError)?;
+            if q != '"' && q != '\'' {
+                return Err(DtdError);
+            }
+            let end = r3[1..].find(q).ok_or(DtdError)?;
+            self.0.insert(name.to_string(), r3[1..1 + end].to_string());
+            rest = &r3[1 + end..];
+        }
+        Ok(())
+    }
+    fn resolve(&self, entity: &str) -> Option<&str> {
+        match entity {
+            "lt" => Some("<"),
+            "gt" => Some(">"),
+            "amp" => Some("&"),
+            "apos" => Some("'"),
+            "quot" => Some("\""),
+            _ => self.0.get(entity).map(|s| s.as_str()),
+        }
+    }
+}
+fn de_resolver_impl<T: DeserializeOwned + Val>(s: &str, reader: bool) -> DeResult {
+    if reader {
+        let mut de = Deserializer::with_resolver(ChunkedRead::new(s.as_bytes(), crate::sources::cuts_for_piece(s.len(), 3, 0)), DtdResolver::default());
+        T::deserialize(&mut de).map(|v| Box::new(v) as Box<dyn Val>).map_err(de_err)
+    } else {
+        let mut de = Deserializer::from_str_with_resolver(s, DtdResolver::default());
+        T::deserialize(&mut de).map(|v| Box::new(v) as Box<dyn Val>).map_err(de_err)
+    }
+}
 fn de_str_many_impl<T: DeserializeOwned + Val>(s: &str, n: usize) -> Vec<DeResult> {
     let mut de = Deserializer::from_str(s);
     let mut out = Vec::new();
@@ -248,6 +304,7 @@ macro_rules! ops {
             de_reader: de_reader_impl::<$t>,
             de_str_many: de_str_many_impl::<$t>,
             de_reader_many: de_reader_many_impl::<$t>,
+            de_resolver: de_resolver_impl::<$t>,
             rows: $rows,
         }
     };
@@ -259,6 +316,7 @@ macro_rules! ops {
             de_reader: de_reader_impl::<$t>,
             de_str_many: de_str_many_impl::<$t>,
             de_reader_many: de_reader_many_impl::<$t>,
+            de_resolver: de_resolver_impl::<$t>,
             rows: &[],
         }
     };
@@ -1597,6 +1655,7 @@ pub fn family() -> Vec<TypeOps> {
             de_reader: de_reader_impl::<BorrowTwin>,
             de_str_many: de_str_many_impl::<BorrowTwin>,
             de_reader_many: de_reader_many_impl::<BorrowTwin>,
+            de_resolver: de_resolver_impl::<BorrowTwin>,
             rows: &["strings-borrowed-from-the-input"],
         },
     ]
